@@ -418,9 +418,11 @@ def oracle(frames, old, inlab, a, b, final):
 # ------------------------------------------------------------------------------------------------
 # classification of a violation (narrow signatures)
 
-def classify(check, label, cap_rows, start, stop, final_by_new):
-    """cap_rows: (frame, old, new) as seen by reconnect_traj_patch"""
-    if cap_rows is None:
+def classify(check, label, cap_rows, start, stop, final_by_new, behaves_as_original):
+    """cap_rows: (frame, old, new) as seen by reconnect_traj_patch.  The two signatures of the known
+    defects of the unrepaired rule are only given when the output is exactly that of the model of the
+    unrepaired rule (Rule.orig) and differs from the repaired one."""
+    if cap_rows is None or not behaves_as_original:
         return dict(what="other", check=check)
     claimed = {}
     for fr, o, nw in cap_rows:
@@ -609,36 +611,27 @@ def run_case(ctx, inp):
         captured = {ix: int(out.loc[ix, "particle"]) for ix in ix_list if a <= frames[pos[ix]] < b}
         res.stat("mode_full" if overlaps else "mode_norange")
     inlab_src = indep
+    inner_mismatch = False
     if not same_partition(indep, captured):
-        res.stat("inner_link_tie_broken_differently")
         if set(indep) == set(captured) and links_valid(before, captured, sr) and \
                 len({(frames[pos[ix]], t) for ix, t in captured.items()}) == len(captured):
+            res.stat("inner_link_tie_broken_differently")
             inlab_src = captured
         else:
-            res.violation("correspondence-break",
-                          "labels inside the range are not a linking of the range's rows",
-                          impl=captured, model=indep, broken="in-range labels = link of the range",
-                          signature=dict(what="inner-link"))
-            return res
+            # the implementation re-linked something else than the rows of [a, b): judge its output
+            # against the statement (J2 from the independent link); reported below
+            inner_mismatch = True
     inlab = [inlab_src.get(ix) for ix in ix_list]
 
     # ---- oracle -----------------------------------------------------------------------------------
     bad, conflict = oracle(frames, old, inlab, a, b, final)
     res.stat("joined_conflict" if conflict else "joined_no_conflict")
-    final_by_new = {}
-    if cap is not None:
-        for ix, (fr, o, nw) in zip(cap["index"], cap["rows"]):
-            if start <= fr < stop:
-                final_by_new[nw] = int(out.loc[ix, "particle"])
-    seen_sig = set()
-    for check, msg, label in bad:
-        sig = classify(check, label, cap["rows"] if cap else None, start, stop, final_by_new)
-        key = common.canon(sig)
-        if key in seen_sig:
-            continue
-        seen_sig.add(key)
-        res.violation("property-violation", "%s: %s; range %s search_range %s" % (check, msg, (a, b), sr),
-                      impl=dict(final=final), broken=sig["what"], signature=sig)
+    if inner_mismatch and not bad:
+        res.violation("correspondence-break",
+                      "labels inside the range are not a linking of the range's rows",
+                      impl=captured, model=indep, broken="in-range labels = link of the range",
+                      signature=dict(what="inner-link"))
+        return res
 
     # ---- model ------------------------------------------------------------------------------------
     if cap is not None:
@@ -666,6 +659,22 @@ def run_case(ctx, inp):
         return [int(t) for t in m["labels"].split(",")] if m["labels"] is not True and m["labels"] != "" else []
 
     lf, lo_ = labels_of(mf), labels_of(mo)
+    final_by_new = {}
+    if cap is not None:
+        for ix, (fr, o, nw) in zip(cap["index"], cap["rows"]):
+            if start <= fr < stop:
+                final_by_new[nw] = int(out.loc[ix, "particle"])
+    seen_sig = set()
+    for check, msg, label in bad:
+        sig = classify(check, label, cap["rows"] if cap else None, start, stop, final_by_new,
+                       behaves_as_original=(lo_ == impl_labels and lf != impl_labels))
+        key = common.canon(sig)
+        if key in seen_sig:
+            continue
+        seen_sig.add(key)
+        res.violation("property-violation", "%s: %s; range %s search_range %s" % (check, msg, (a, b), sr),
+                      impl=dict(final=final), broken=sig["what"], signature=sig)
+
     if mf.get("validold") == "0" or mf.get("validnew") == "0":
         res.violation("harness-error", "driver judges the input invalid: %r" % mf)
         return res
